@@ -207,7 +207,7 @@ class Conditional(ParentBuilder[ops.Conditional], AbstractContextManager):
             >>> with cond.add_case(0) as case:\
                     case.set_outputs(*case.inputs())
         """
-        if case_id >= len(self._case_builders):
+        if not 0 <= case_id < len(self._case_builders):
             msg = f"Case {case_id} out of possible range."
             raise ConditionalError(msg)
         case, built = self._case_builders[case_id]
